@@ -40,6 +40,7 @@ func genC14(r *Rand, tier string, i int) *h.Scenario {
 	for _, b := range sc.Initial {
 		sc.Post = append(sc.Post, h.Op{K: h.OpBarWait, Bar: b}, h.Op{K: h.OpIsRunning, Bar: b})
 	}
+	addWatchers(r, sc)
 	return sc
 }
 
@@ -199,6 +200,9 @@ func judgeC14(hi *Hist) []*Violation {
 			}
 		}
 	}
+	if v := afterBarWait(hi, "C14"); v != nil {
+		add("after-bar-wait", "%s at step %d: %s", kind, hi.Sc.InjectAt, v.Msg)
+	}
 	// Bar.Wait issued after Wait must have returned (run ended OK, so it did); ops in flight returned
 	for _, op := range hi.Ops {
 		if op.Ret < 0 {
@@ -229,8 +233,8 @@ func judgeC14(hi *Hist) []*Violation {
 			}
 			// bars that can not have left the container must be listed
 			for _, bf := range facts {
-				if bf.Added && bf.AddRet < hi.InjectAt && !bf.Queued && !mayBeRemovable(hi, bf) && !poppable(hi, bf) && !seen[bf.Idx] && e.A == 1 {
-					add("notifier-missing", "%s at step %d: the notifier value %v does not list bar %d, which was added before the cancellation and is never removed", kind, hi.Sc.InjectAt, e.V, bf.Idx)
+				if bf.Added && !bf.Queued && !mayBeRemovable(hi, bf) && !poppable(hi, bf) && !seen[bf.Idx] && e.A == 1 {
+					add("notifier-missing", "%s at step %d: the notifier value %v does not list bar %d, which Add returned and which is never removed", kind, hi.Sc.InjectAt, e.V, bf.Idx)
 				}
 			}
 		}
